@@ -430,3 +430,23 @@ Definition py_for_suppressed {S} (it : res pv) (e : exn) (body : pv -> S -> out 
   | Ok v => py_for v body s
   | Err e' => if exn_eqb e e' then Nx s else Ex e'
   end.
+
+(* ---------- suppress(E1, E2), try / except (E1, E2), int(x) (forms.py) ---------- *)
+Definition py_suppress_l {S} (es : list exn) (body : out S) (before : S) : out S :=
+  match body with
+  | Ex e' => if existsb (exn_eqb e') es then Nx before else Ex e'
+  | o => o
+  end.
+Definition py_try {S} (body : out S) (es : list exn) (handler : out S) : out S :=
+  match body with
+  | Ex e' => if existsb (exn_eqb e') es then handler else Ex e'
+  | o => o
+  end.
+(* int(x) of a str (optional sign, digits with single underscores, surrounding white space) or an int *)
+Definition py_int (v : pv) : res pv :=
+  match v with
+  | VStr s => match int_of_str s with Some z => Ok (VInt z) | None => Err ValueError end
+  | VInt z => Ok (VInt z)
+  | VBool b => Ok (VInt (if b then 1 else 0)%Z)
+  | _ => Err TypeError
+  end.
